@@ -52,6 +52,7 @@ def run(rep, idx, tier):
     rep.require("C19.9", 1)
     rep.require("C19.12", 25)
     rep.require("C19.15", 2)
+    rep.require("C19.16", 15)
     rules(rep, idx, fixture=False)
     # positive fixture: the same rules must flag the committed bad example on every run
     fx = Index(os.path.join(os.path.dirname(os.path.dirname(os.path.abspath(__file__))), "fixtures", "c19"))
@@ -104,6 +105,9 @@ def rules(rep, idx, fixture):
         plain_member_directions(rep, idx, "C19.13")
         clamped_pattern_width(rep, idx)
         computed_submodule_names(rep, idx)
+        # A1 (asserts are invariants that may be ignored -- python -O removes them) is only sound when no assert changes state
+        from . import glue as _glue16
+        _glue16.pure_asserts(rep, "C19.16", idx, ("",))
     if not fixture:
         from . import glue as _glue
         _glue.param_refusals(rep, "C19.12", idx)
